@@ -299,6 +299,10 @@ impl Record {
         debug_assert!(result.is_ok());
     }
 
+    pub(crate) fn successor(&self) -> Option<&Arc<Record>> {
+        self.successor.get()
+    }
+
     pub(crate) fn retirement_timestamp(&self) -> u64 {
         let mut retired_at = self.retired_at.load(Ordering::Acquire);
         let Some(mut current) = self.successor.get().cloned() else {
